@@ -35,6 +35,7 @@ type c19Case struct {
 	mustErr   bool   // the call must report an error
 	mayOutput bool   // ("<wantOut>", nil) acceptable
 	mayErr    bool   // an error is acceptable as well
+	anyOut    bool   // the exact form of the returned output is not asserted
 }
 
 func c19Cases(timeout float64) []c19Case {
@@ -66,6 +67,12 @@ func c19Cases(timeout float64) []c19Case {
 		{Mode: "grandchild-holds-stdout", script: "(sleep " + over + " &) ; echo 42; exit 0", wantOut: "42", mayOutput: true, mayErr: true},
 		{Mode: "grandchild-holds-stdout-exit1", script: "(sleep " + over + " &) ; echo 42; exit 1", mustErr: true},
 		{Mode: "empty-output", script: "true", wantOut: "", mayOutput: true},
+		// blank but not zero-length output: whatever is returned, the call returns
+		{Mode: "blank-output-space", script: "printf ' '", mayOutput: true, mayErr: true, anyOut: true},
+		{Mode: "blank-output-tab", script: "printf '\\t'", mayOutput: true, mayErr: true, anyOut: true},
+		{Mode: "blank-output-crlf", script: "printf '\\r\\n'", mayOutput: true, mayErr: true, anyOut: true},
+		{Mode: "blank-output-lines", script: "printf '\\n \\n'", mayOutput: true, mayErr: true, anyOut: true},
+		{Mode: "value-with-unit", script: "echo '45.5 C'", mayOutput: true, mayErr: true, anyOut: true},
 		{Mode: "non-numeric-output", script: "echo 'hello world'", wantOut: "hello world", mayOutput: true},
 		{Mode: "huge-output", script: "head -c 50000000 /dev/zero | tr '\\0' 'x'", wantOut: "<huge>", mayOutput: true, mayErr: true},
 	}
@@ -256,6 +263,7 @@ func c19Check(ctx *Ctx, dir string, c c19Case, n int, mu *sync.Mutex) {
 			ctx.Violation("failure-not-reported:"+cls, fmt.Sprintf("timeout %.1fs: out=%q err=nil elapsed %.2fs", c.TimeoutS, trunc(r.out), r.elapsed.Seconds()), replay)
 		case c.Via != "SafeCmdExecution" || c.Mode == "vanishing":
 			// wrappers convert the output; a racing writer may truncate the script
+		case c.anyOut:
 		case c.wantOut == "<huge>":
 			if len(r.out) != 50000000 || strings.Trim(r.out, "x") != "" {
 				ctx.Violation("wrong-output:"+cls, fmt.Sprintf("huge output: got %d bytes", len(r.out)), replay)
@@ -297,6 +305,7 @@ func init() {
 			for _, c := range c19Cases(2) {
 				switch c.Mode {
 				case "not-executable", "missing-interpreter", "exit1-with-output", "grandchild-holds-stdout", "sleep-beyond-deadline-child", "non-numeric-output", "empty-output", "ok", "text-file-busy",
+					"blank-output-space", "blank-output-tab", "blank-output-crlf", "blank-output-lines", "value-with-unit",
 					"missing", "symlink-loop", "parent-is-a-file", "name-too-long", "is-a-directory", "dangling-symlink":
 				default:
 					if !ctx.Thorough() {
@@ -306,7 +315,7 @@ func init() {
 				c.TimeoutS = 2
 				c.Via = via
 				// through the wrappers garbage output must surface as an error, except for SetPwm which ignores the output
-				if via != "CmdFan.SetPwm" && (c.Mode == "non-numeric-output" || c.Mode == "empty-output" || c.Mode == "ok-multiline" || c.Mode == "huge-output") {
+				if via != "CmdFan.SetPwm" && (c.Mode == "non-numeric-output" || c.Mode == "empty-output" || c.Mode == "ok-multiline" || c.Mode == "huge-output" || strings.HasPrefix(c.Mode, "blank-output")) {
 					c.mustErr = true
 				}
 				cases = append(cases, c)
